@@ -2,7 +2,7 @@
    `step : Circuit → op → Circuit * outcome` (Base/Api.v) is the model of the eight mutators, partial effects of a
    rejected call included; `Inv`, `pins_ok`, `edges` are defined in Model/ApiInv.v. *)
 From stdpp Require Import strings gmap sets.
-From CG Require Import Model.ApiInv Proofs.ApiProofs Proofs.ApiFillProofs.
+From CG Require Import Model.ApiInv Model.ApiOrder Proofs.ApiProofs Proofs.ApiFillProofs.
 Open Scope string_scope.
 
 (* obligation on the regenerated type lists of circuit.py (connect, add, supported_types): as sets they are the
@@ -10,6 +10,13 @@ Open Scope string_scope.
 Theorem C07_tables_ok : tables_okb = true.
 Proof. vm_compute. reflexivity. Qed.
 Print Assumptions C07_tables_ok.
+
+(* obligation on the regenerated statement skeletons of Circuit.add / connect / disconnect / remove / set_output / set_type /
+   add_blackbox / add_subcircuit / fill_blackbox / uid / relabel (Gen_api.v): order of tests, raises, mutations, undo code
+   and name templates are the ones Base/Api.v implements (Model/ApiOrder.v) *)
+Theorem C07_api_order_ok : api_order_okb = true.
+Proof. vm_compute. reflexivity. Qed.
+Print Assumptions C07_api_order_ok.
 
 (* the boolean invariant evaluated by the oracle is the declarative one *)
 Theorem C07_invb_spec : ∀ C, invb C = true ↔ Inv C.
